@@ -20,9 +20,9 @@ Definition store_body (c : scall) : list ((scall * R) -> store -> unit -> (scall
 Lemma store_prog_cs c : store_prog c = cs_prog store unit (scall * R) (store_body c).
 Proof. reflexivity. Qed.
 
-Definition text_body contents ce (c : tcall) : list (tls -> tobj -> nat -> tls * tobj) :=
-  [t_stat ce; t_read contents ce].
-Lemma text_prog_cs contents ce c : text_prog contents ce true c = cs_prog tobj nat tls (text_body contents ce c).
+Definition text_body contents bad ce (c : tcall) : list (tls -> tobj -> nat -> tls * tobj) :=
+  [t_stat ce; t_read contents bad ce].
+Lemma text_prog_cs contents bad ce c : text_prog contents bad ce true c = cs_prog tobj nat tls (text_body contents bad ce c).
 Proof. reflexivity. Qed.
 
 (* ---------- LRU: size bound and read-your-write ---------- *)
@@ -86,36 +86,54 @@ Qed.
 (* ---------- TextFileSource: one call, file possibly edited between stat and read ---------- *)
 Section TextSpec.
   Variable contents : nat -> list (nat * nat).
+  Variable bad : nat -> bool.
 
-  (* the object holds the parse of some file state between the recorded stat version and now *)
+  (* what a call must answer when the file is in state w *)
+  Definition text_spec (c : tcall) (w : nat) : R :=
+    at_world c w (if bad w then [8] else text_answer c (contents w)).
+
+  (* the object holds the parse of some (parsable) file state between the recorded stat version and now *)
   Definition t_inv (o : tobj) (w : nat) : Prop :=
-    forall v, fver o = Some v -> exists wc, v <= wc /\ wc <= w /\ parsed o = contents wc.
+    forall v, fver o = Some v -> exists wc, v <= wc /\ wc <= w /\ parsed o = contents wc /\ bad wc = false.
 
+  (* a call whose stat sees state w1 and whose read sees state w2 (the file may have been edited in
+     between) answers exactly as for ONE file state wr with w1 <= wr <= w2, observed at w2 *)
   Theorem text_call_spec ce c l o w1 w2 l1 o1 l2 o2 :
     t_inv o w1 -> w1 <= w2 -> tc l = c ->
-    t_stat ce l o w1 = (l1, o1) -> t_read contents ce l1 o1 w2 = (l2, o2) ->
-    (exists wr, w1 <= wr /\ wr <= w2 /\ tres l2 = text_answer c (contents wr)) /\ t_inv o2 w2.
+    t_stat ce l o w1 = (l1, o1) -> t_read contents bad ce l1 o1 w2 = (l2, o2) ->
+    (exists wr, w1 <= wr /\ wr <= w2 /\
+                tres l2 = at_world c w2 (if bad wr then [8] else text_answer c (contents wr))) /\ t_inv o2 w2.
   Proof.
     intros Hi Hw Hc Hs Hr. unfold t_stat in Hs. injection Hs as <- <-.
     unfold t_read in Hr. cbn [statv tc] in Hr.
+    assert (Hfresh : forall sv, (if bad w2 then
+                 ({| tc := tc l; statv := sv; tres := at_world (tc l) w2 [8] |}, {| fver := None; parsed := [] |})
+               else ({| tc := tc l; statv := sv;
+                        tres := at_world (tc l) w2 (text_answer (tc l) (parsed {| fver := sv; parsed := contents w2 |})) |},
+                     {| fver := sv; parsed := contents w2 |})) = (l2, o2) ->
+               (sv = None \/ sv = Some w1) ->
+               (exists wr, w1 <= wr /\ wr <= w2 /\
+                  tres l2 = at_world c w2 (if bad wr then [8] else text_answer c (contents wr))) /\ t_inv o2 w2).
+    { intros sv H Hsv. destruct (bad w2) eqn:Eb; injection H as <- <-; cbn [tres parsed fver]; split.
+      - exists w2. rewrite Eb, Hc. repeat split; auto.
+      - intros v Hv. discriminate.
+      - exists w2. rewrite Eb, Hc. repeat split; auto.
+      - intros v Hv. cbn [fver] in Hv. destruct Hsv as [ -> | -> ]; [discriminate|]. injection Hv as <-.
+        exists w2. cbn [parsed]. repeat split; auto. }
     destruct ce; cbn [andb] in Hr.
     - destruct (opt_nat_eqb (Some w1) (fver o)) eqn:E.
       + injection Hr as <- <-. cbn [tres]. unfold opt_nat_eqb in E.
         destruct (fver o) as [v|] eqn:Ev; [|discriminate]. apply Nat.eqb_eq in E. subst v.
-        destruct (Hi _ Ev) as (wc & H1 & H2 & H3). assert (wc = w1) by lia. subst wc.
+        destruct (Hi _ Ev) as (wc & H1 & H2 & H3 & H4). assert (wc = w1) by lia. subst wc.
         split.
-        * exists w1. rewrite Hc, H3. repeat split; auto.
+        * exists w1. rewrite Hc, H3, H4. repeat split; auto.
         * intros v Hv. rewrite Ev in Hv. injection Hv as <-. exists w1. repeat split; auto.
-      + injection Hr as <- <-. cbn [tres parsed]. split.
-        * exists w2. rewrite Hc. repeat split; auto.
-        * intros v Hv. cbn [fver] in Hv. injection Hv as <-. exists w2. cbn [parsed]. repeat split; auto.
-    - injection Hr as <- <-. cbn [tres parsed]. split.
-      + exists w2. rewrite Hc. repeat split; auto.
-      + intros v Hv. cbn [fver] in Hv. discriminate.
+      + apply (Hfresh (Some w1)); auto.
+    - apply (Hfresh None); auto.
   Qed.
 
   Lemma t_inv_mono o w w' : t_inv o w -> w <= w' -> t_inv o w'.
-  Proof. intros H Hw v Hv. destruct (H v Hv) as (wc & ? & ? & ?). exists wc. repeat split; auto; lia. Qed.
+  Proof. intros H Hw v Hv. destruct (H v Hv) as (wc & ? & ? & ? & ?). exists wc. repeat split; auto; lia. Qed.
 End TextSpec.
 
 (* ---------- YAML: cache validity over all interleavings ---------- *)
